@@ -40,7 +40,7 @@ def shards(tier):
 
 
 def timeout(tier):
-    return 200 if tier == "quick" else 900
+    return 900 if tier == "quick" else 5400
 
 
 def gen_uid(rng):
